@@ -72,7 +72,7 @@ func recItems(b []byte, w *walked, nq int) (qs, rrs []string) {
 	return
 }
 
-func c09Case(c *Ctx, stream string, orig *dns.Msg, size int, plain bool) {
+func c09Case(c *Ctx, stream string, orig *dns.Msg, size int, plain, wire bool) {
 	m := orig.Copy()
 	// Copy gives new records; keep identity through a parallel shallow structure instead
 	m.Answer = append([]dns.RR{}, orig.Answer...)
@@ -116,6 +116,15 @@ func c09Case(c *Ctx, stream string, orig *dns.Msg, size int, plain bool) {
 	c.Pred(stream, "opt-retained", in, (opt == nil && optRes == nil) || (opt != nil && optRes == opt),
 		fmt.Sprint(optRes), "OPT kept", nt)
 	c.Pred(stream, "tc", in, m.Truncated == (wasTC || dropped), b01(m.Truncated), b01(wasTC || dropped), nt)
+	// the whole operation on the octets: the reply decoded by the model, every record measured by the translated len()
+	// bodies with Len's simulated compression, truncated by the generic machine — all types, not only plain messages
+	if w := mustPack(orig, false); wire && len(w) <= 6000 {
+		var back dns.Msg
+		if back.Unpack(w) == nil && len(back.Answer) == len(orig.Answer) && len(back.Ns) == len(orig.Ns) && len(back.Extra) == len(orig.Extra) {
+			c.OpK(stream, fmt.Sprintf("truncate.wire %d %s", size, hx(w)),
+				fmt.Sprintf("%d %d %d %s %s", len(m.Answer), len(m.Ns), len(exRes), b01(m.Truncated), b01(m.Compress)), nt, "truncate-wire")
+		}
+	}
 	if ulen <= S {
 		c.Pred(stream, "fits-keeps-all", in, !dropped, "dropped", "all kept", true)
 	}
@@ -217,8 +226,14 @@ func runC09(c *Ctx) {
 				sizes = append(sizes, pl-1, pl, pl+1)
 			}
 		}
-		for _, sz := range sizes {
-			c09Case(c, "random", m, sz, plain && g.Plain)
+		// the whole-operation correspondence is the slow part (the model decodes and measures the message anew for each
+		// size): one size in four per message, one in eight in the thorough tier, rotating with the message number
+		every := 4
+		if c.Tier == "thorough" {
+			every = 8
+		}
+		for si, sz := range sizes {
+			c09Case(c, "random", m, sz, plain && g.Plain, si%every == i%every)
 		}
 	}
 }
